@@ -173,11 +173,77 @@ theorem fresh_not_used (used : List String) (base : String) : ¬ fresh used base
   simp only [cands, List.length_map, List.length_range] at this
   omega
 
+/-! the names of one instance -/
+
+/-- the pinned loop lets two components of one instance end up with the same name (replayed on the implementation by
+    checks/C06.py; repaired in /repo, see known_findings.json) -/
+theorem declashPinned_collides : ¬ (declashPinned ["a"] ["a", "a_1"]).Nodup := by decide
+
+theorem declashGo_spec (used : List String) : ∀ (names taken : List String),
+    (∀ x ∈ used, x ∈ taken) → (∀ x ∈ names, x ∈ taken) → names.Nodup →
+    (declashGo used taken names).Nodup ∧ (∀ r ∈ declashGo used taken names, ¬ r ∈ used) ∧
+    (∀ r ∈ declashGo used taken names, r ∈ names ∨ ¬ r ∈ taken) := by
+  intro names
+  induction names with
+  | nil => intro taken _ _ _; simp [declashGo]
+  | cons n rest ih =>
+    intro taken hu hn hnd
+    have hnd' := List.nodup_cons.mp hnd
+    unfold declashGo
+    by_cases hc : used.contains n = true
+    · simp only [hc, if_true]
+      have hf : ¬ fresh taken n ∈ taken := fresh_not_used taken n
+      obtain ⟨h1, h2, h3⟩ := ih (fresh taken n :: taken)
+        (fun x hx => List.mem_cons_of_mem _ (hu x hx))
+        (fun x hx => List.mem_cons_of_mem _ (hn x (List.mem_cons_of_mem _ hx))) hnd'.2
+      refine ⟨?_, ?_, ?_⟩
+      · refine List.nodup_cons.mpr ⟨?_, h1⟩
+        intro hmem
+        rcases h3 _ hmem with hr | hr
+        · exact hf (hn _ (List.mem_cons_of_mem _ hr))
+        · exact hr (by simp)
+      · intro r hr
+        rcases List.mem_cons.mp hr with rfl | hr
+        · exact fun hru => hf (hu _ hru)
+        · exact h2 r hr
+      · intro r hr
+        rcases List.mem_cons.mp hr with rfl | hr
+        · exact Or.inr hf
+        · rcases h3 r hr with h | h
+          · exact Or.inl (List.mem_cons_of_mem _ h)
+          · exact Or.inr (fun hrt => h (List.mem_cons_of_mem _ hrt))
+    · have hc' : ¬ n ∈ used := by simpa using hc
+      simp only [hc, Bool.false_eq_true, if_false]
+      obtain ⟨h1, h2, h3⟩ := ih taken hu (fun x hx => hn x (List.mem_cons_of_mem _ hx)) hnd'.2
+      refine ⟨?_, ?_, ?_⟩
+      · refine List.nodup_cons.mpr ⟨?_, h1⟩
+        intro hmem
+        rcases h3 _ hmem with hr | hr
+        · exact hnd'.1 hr
+        · exact hr (hn n (by simp))
+      · intro r hr
+        rcases List.mem_cons.mp hr with rfl | hr
+        · exact hc'
+        · exact h2 r hr
+      · intro r hr
+        rcases List.mem_cons.mp hr with rfl | hr
+        · exact Or.inl (by simp)
+        · rcases h3 r hr with h | h
+          · exact Or.inl (List.mem_cons_of_mem _ h)
+          · exact Or.inr h
+
+/-- **the components of one instance get pairwise distinct names, none of which is in use in the importing model** -/
+theorem declash_nodup (used names : List String) (hn : names.Nodup) :
+    (declash used names).Nodup ∧ ∀ r ∈ declash used names, ¬ r ∈ used := by
+  have := declashGo_spec used names (used ++ names) (fun x hx => by simp [hx]) (fun x hx => by simp [hx]) hn
+  exact ⟨this.1, this.2.1⟩
+
 /-! non-vacuity -/
 example : rebaseStack [2, 0, 1, 4] [2, 0] [5] = [5, 1, 4] := by decide
 example : rebaseTarget [2, 0, 1, 4] [2, 0] [5] = some [5, 1, 4] := by decide
 example : rebaseTarget [3, 1, 4] [2, 0] [5] = none := by decide
 example : fresh ["a", "a_1", "b"] "a" = "a_2" := by decide
+example : declash ["a"] ["a", "a_1"] = ["a_2", "a_1"] := by decide
 example : instantiate ["main", "m1", "m2", "leafA"] ["mid", "leafA"] 2 = ["main", "m1", "m2", "leafA", "mid", "leafA_1", "mid_1", "leafA_2"] := by decide
 
 end Cellml.Props.C06
